@@ -138,3 +138,15 @@ def model_matlab(driver, text, module_name, ignore, boost):
             p, t = ent.split("\x1f", 1)
             files[p] = t
     return ("ok", files)
+
+
+def ensure_matlab_tpl():
+    """`gtwrap/matlab_wrapper/matlab_wrapper.tpl` is a git-ignored build artefact (CMake configure_file);
+    the repo's own test set-up creates it with this content when it is missing, and so do we."""
+    p = os.path.join(REPO, "gtwrap", "matlab_wrapper", "matlab_wrapper.tpl")
+    if not os.path.exists(p):
+        with open(p, "w", encoding="UTF-8") as f:
+            f.write("#include <gtwrap/matlab.h>\n#include <map>\n")
+
+
+ensure_matlab_tpl()
